@@ -39,6 +39,7 @@ type Sched struct {
 	kill   atomic.Bool
 	Live   atomic.Int64 // goroutines that have parked at least once and not yet exited
 	Points atomic.Int64
+	exempt int64 // goroutine id of the controller: its own sync operations are never scheduled
 }
 
 var cur atomic.Pointer[Sched]
@@ -47,7 +48,7 @@ var cur atomic.Pointer[Sched]
 //
 //go:norace
 func Activate() *Sched {
-	s := &Sched{Reqs: make(chan *ParkReq, 4096)}
+	s := &Sched{Reqs: make(chan *ParkReq, 4096), exempt: goid()}
 	cur.Store(s)
 	return s
 }
@@ -93,10 +94,14 @@ func PointL(op string, obj uintptr, label string, enabled func() bool) {
 	if s == nil {
 		return
 	}
+	gid := goid()
+	if gid == s.exempt {
+		return
+	}
 	if s.kill.Load() {
 		exitNow(s)
 	}
-	r := &ParkReq{GID: goid(), Op: op, Obj: obj, Label: label, Enabled: enabled, wake: make(chan struct{})}
+	r := &ParkReq{GID: gid, Op: op, Obj: obj, Label: label, Enabled: enabled, wake: make(chan struct{})}
 	s.Points.Add(1)
 	raceDisable()
 	s.Reqs <- r
